@@ -8,6 +8,9 @@ package db
 // caller's context (lock state, ghost transaction state).
 //@ func Update
 //@   attr inline
+//@   requires db != nil && !in_tx && !commit_failed
+//@   ensures a-failed-commit-is-reported-to-the-caller: commit_failed ==> err != nil
+//@   ensures the-transaction-is-closed: !in_tx
 //@ func View
 //@   attr inline
 
@@ -18,6 +21,8 @@ package db
 //@ ghost in_tx bool
 //@ ghost tx_count int
 //@ ghost write_failed bool
+// commit_failed: the last Commit returned an error (nothing of that transaction is stored)
+//@ ghost commit_failed bool
 
 //@ func (DB).BeginTx
 //@   attr trusted
@@ -36,8 +41,9 @@ package db
 //@   attr trusted
 //@   requires tx-open: in_tx
 //@   requires no-swallowed-write-error: !write_failed
-//@   modifies in_tx
+//@   modifies in_tx, commit_failed
 //@   ensures !in_tx
+//@   ensures commit_failed == (result != nil)
 
 //@ func (DBTransaction).Rollback
 //@   attr trusted
